@@ -77,11 +77,11 @@ func stopMatrix(sc *scen.Scenario, t *scen.Tape, i int) string {
 }
 
 func planC03(p *propDef, tier string, seed uint64, n int) []*Case {
-	nScen := 3
+	nScen := 4
 	if tier == "thorough" {
-		nScen = 36
+		nScen = 54
 	}
-	if n > 0 && n < nScen {
+	if n > 0 {
 		nScen = n
 	}
 	type prof struct {
@@ -176,7 +176,7 @@ func planC03(p *propDef, tier string, seed uint64, n int) []*Case {
 }
 
 func init() {
-	props["C03"] = &propDef{level: "fault_enumeration", assumptions: e2eAssumptions, components: e2eComponents, quickRuns: 3, thorRuns: 36,
+	props["C03"] = &propDef{level: "fault_enumeration", assumptions: e2eAssumptions, components: e2eComponents, quickRuns: 4, thorRuns: 54,
 		rule:   "per sampled (scenario, configuration-matrix point): one profiling run records the pipeline's progress events; then one run per (event kind, occurrence) issues controler.Stop() at that event (quick: first/middle/last occurrence; thorough: every occurrence up to 40), plus stop at start, at idle, while paused by an operator, after resume, during resume and while paused by the disk watchdog; distinct = distinct event-log hash; non-trivial = >= 2 HTTP exchanges or > 30 scheduler decisions or a fault fired",
 		planFn: planC03,
 	}
@@ -222,9 +222,9 @@ func restartOf(sc *scen.Scenario) *scen.Scenario {
 func planC04(p *propDef, tier string, seed uint64, n int) []*Case {
 	nScen := 3
 	if tier == "thorough" {
-		nScen = 30
+		nScen = 45
 	}
-	if n > 0 && n < nScen {
+	if n > 0 {
 		nScen = n
 	}
 	type prof struct {
@@ -314,7 +314,7 @@ func planC04(p *propDef, tier string, seed uint64, n int) []*Case {
 }
 
 func init() {
-	props["C04"] = &propDef{level: "fault_enumeration", assumptions: append([]string{"a kill is a real SIGKILL of the simulation process: what survives is what write(2) had handed to the kernel (no power-loss model; Zeno never fsyncs)", "kills inside one sqlite commit are not reachable (no seam inside the wazero VFS)"}, e2eAssumptions...), components: e2eComponents, quickRuns: 3, thorRuns: 30,
+	props["C04"] = &propDef{level: "fault_enumeration", assumptions: append([]string{"a kill is a real SIGKILL of the simulation process: what survives is what write(2) had handed to the kernel (no power-loss model; Zeno never fsyncs)", "kills inside one sqlite commit are not reachable (no seam inside the wazero VFS)"}, e2eAssumptions...), components: e2eComponents, quickRuns: 3, thorRuns: 45,
 		rule:   "per sampled scenario: one profiling run; then one two-process case per (instrumented point in the queue claim / reactor insert / finish / delete / WARC feedback paths, occurrence) with SIGKILL at that point, per WARC write #k with a torn tail, per seeded scheduler step, and per graceful-stop moment; each followed by a fault-free restart on the same job directory run to quiescence; distinct = distinct event-log hash of the first process; non-trivial as for C03",
 		planFn: planC04,
 	}
@@ -369,7 +369,7 @@ func planC16(p *propDef, tier string, seed uint64, n int) []*Case {
 }
 
 func init() {
-	props["C16"] = &propDef{level: "exploration", assumptions: append([]string{"the footprint is sampled 31 simulated minutes after the queue drained (beyond the limiter's clean-up period), after two forced GCs; goroutines are compared as a multiset keyed by entry function, descriptors by class (leveldb / sqlite table files are excluded from the equality: their number legitimately depends on data volume)"}, e2eAssumptions...), components: e2eComponents, quickRuns: 12, thorRuns: 300,
+	props["C16"] = &propDef{level: "exploration", assumptions: append([]string{"the footprint is sampled 31 simulated minutes after the queue drained (beyond the limiter's clean-up period), after two forced GCs; goroutines are compared as a multiset keyed by entry function, descriptors by class (leveldb / sqlite table files are excluded from the equality: their number legitimately depends on data volume)"}, e2eAssumptions...), components: e2eComponents, quickRuns: 16, thorRuns: 600,
 		rule:   "one pair = the same configuration crawled with N and with 4N generated seeds (N = 3-8; large and spooled bodies, failures, redirects, many hosts, limiter on/off): absolute requirements on each run (reactor table empty, no temp file, no descriptor into the temp directory, no socket, limiter table within workers x per-worker concurrency) and equality of the goroutine multiset and descriptor classes between the two; distinct/non-trivial as for C01",
 		planFn: planC16,
 	}
